@@ -275,7 +275,7 @@ def make_single_cfg(rng, i):
         cpat = "random"
     return dict(kind="single", layout=layout, n=n, P=P, seed=int(rng.integers(0, 2 ** 31)), miss_cols=cols, miss_rows=rows,
                 cpat=cpat, rpat=rpat, k=2, standardize=bool(rng.random() < 0.4), center=True,
-                power=int(rng.integers(1, 3)), rotate=bool(i % 2 == 0))
+                power=int(rng.integers(1, 3)), rotate=bool(rng.random() < 0.6))
 
 
 def base_matrix(seed, n, P):
@@ -468,7 +468,7 @@ def run_single(ctx, cfg):
 # ---- cross-set
 def make_cross_cfg(rng, i):
     scen = ("same", "different-positions", "x-only", "y-only", "none", "same", "different-positions")[i % 7]
-    n = int(rng.integers(10, 14))
+    n = int(rng.integers(36, 45))   # well above the number of features: whitening (alpha < 1) must be well conditioned
     cls = ("MCA", "CPCCA")[(i // 7) % 2] if i >= 7 else ("MCA", "CPCCA")[i % 2]
     use_pca = bool(rng.random() < 0.5)
     alpha = [1.0, 0.5, 0.0][int(rng.integers(0, 3))]
